@@ -114,6 +114,16 @@ func RuleI1(c *Ctx) {
 				if id, ok := ast.Unparen(cs.Call.Args[0]).(*ast.Ident); ok {
 					statPathObj = info.ObjectOf(id)
 				}
+				// and what the validator judges is the name as written: the lexeme's value
+				// through accessors only. A name normalised first (Clean, ToSlash, TrimSpace ...)
+				// shows the validator something other than what the document says - the
+				// components it exists to refuse ('.', '..') may already be gone.
+				rawKey := c.P.DeclName(cs.Decl) + ":validated-as-written"
+				if how := transformedKey(info, cf.Resolve(p)); how == "" {
+					sc.Holds(rawKey, pos, "the validated name is the parameter lexeme's value, untransformed")
+				} else {
+					sc.Violation(rawKey, pos, "the name validator is applied to a transformed name ("+how+"), not to the INCLUDE parameter as written: names the validator exists to refuse ('./x.jst', 'sub/../x.jst') are rewritten into acceptable ones before it looks")
+				}
 			} else {
 				sc.Violation(key, pos, "the INCLUDE name reaches the file system without passing the name validator on every path: a name with '..', an absolute path or a backslash can leave the project directory")
 			}
